@@ -127,7 +127,7 @@ def coq_cbs(percall):
 def run(ctx):
     ctx.rule = ("histories of watch/unwatch/unwatch_all/update on the real GeckoStructure and GeckoAsyncStructure with 5-10 real shipped items "
                 "(2-byte, bit-field and neighbouring items preferred, TempUnits + temperature items included), patches aimed at item boundaries "
-                "(straddling, one byte of a 2-byte item, miss by one, full refresh), patches whose first / last bytes coincide with the block's bytes at the segment-relative index, all-zero start blocks, updates that switch TempUnits and cover a temperature item whose stored reading stays / moves to the word that reads the same in the other unit, duplicate registrations; callbacks per operation and final block "
+                "(straddling, one byte of a 2-byte item, miss by one, full refresh), patches whose first / last bytes coincide with the block's bytes at the segment-relative index, all-zero start blocks, updates that switch TempUnits and cover a temperature item whose stored reading stays / moves to the word that reads the same in the other unit, duplicate registrations, observers removed and registered again; callbacks per operation and final block "
                 "compared with Model/Notify.v; non-trivial = history in which at least one callback fired and at least one touched item stayed silent")
     ctx.prove(timeout=2400)
     mods = gen_tables.load_tables()
@@ -180,6 +180,11 @@ def run(ctx):
                 ops.append(("U", rng.randrange(len(its)), rng.randrange(3)))
             elif r < 0.35:
                 ops.append(("UA", rng.randrange(len(its))))
+            elif r < 0.385:
+                # an observer is removed and registered again (same callable) - it must be told about the next change again
+                i_, ob_ = rng.randrange(len(its)), rng.randrange(3)
+                it_ = its[i_]
+                ops += [("W", i_, ob_), ("U", i_, ob_), ("W", i_, ob_), ("P", it_["pos"], [rng.randrange(256) for _ in range(it_["length"])])]
             elif r < 0.41:
                 # a patch that does not start at 0 whose last bytes are the bytes the block holds at the same index counted from the START of
                 # the block (and whose first bytes are the bytes at the same index counted from the start of the patch's own range shifted
